@@ -10,10 +10,11 @@ Open Scope list_scope.
 
 (* what each consumer can notice: any failure of an image or a font; for a sheet an exception or a foreign
    type (empty or truncated CSS is a valid, empty sheet); for an attachment an exception (any bytes are a
-   payload); nothing for the external <use> call site (listed finding) *)
+   payload); any failure of an external <use> (fetched through urls.fetch and logged since the repair) *)
 Definition detect (fails : fails_t) (ch : channel) (u : string) : Prop :=
   match ch, fails u with
   | ChImage, Some _ => True
+  | ChUse, Some _ => True
   | ChFont, Some _ => True
   | ChSheet, Some MRaise | ChSheet, Some MWrongType | ChSheet, Some MHtml => True
   | ChAttach, Some MRaise => True
@@ -168,32 +169,32 @@ Section Logged.
 
   Lemma sem_req_Q q : Q (sem_req W fails q).
   Proof.
-    destruct q as [[[k id] a] al]. destruct a as [a|]; simpl.
+    destruct q as [[[[k id] a] al] o]. destruct a as [a|]; simpl.
     - apply Q_cons; [not_fetch|]. apply Q_cons; [not_fetch|apply Q_nil].
     - apply Q_cons; [not_fetch|apply Q_nil].
   Qed.
 
-  Lemma sem_kids_Q rec b : (forall u, Q (rec u)) -> forall kids, Q (sem_kids W fails rec b kids).
+  Lemma sem_kids_Q rec owner oo b : (forall u, Q (rec u)) -> forall kids, Q (sem_kids W fails rec owner oo b kids).
   Proof.
     intros Hrec. induction kids as [|v r IH]; [apply Q_nil|]. simpl.
     destruct v as [rf|rf]; destruct (url_join b rf true) as [a|]; try exact IH.
     - apply Q_cons; [not_fetch|]. apply Q_app; [|exact IH].
       destruct (img_ok W fails (fetched_string a)); [apply Hrec|apply Q_nil].
-    - apply Q_fetch_fine; [|exact IH]. unfold detect. destruct (fails (fetched_string a)); tauto.
+    - apply Q_cons; [not_fetch|exact IH].
   Qed.
 
-  Lemma sem_draw_Q w : forall u, Q (sem_draw W fails w u).
+  Lemma sem_draw_Q w : forall u o, Q (sem_draw W fails w u o).
   Proof.
-    induction w as [|[k c] w IH]; intros u; [apply Q_nil|]. simpl.
+    induction w as [|[k c] w IH]; intros u o; [apply Q_nil|]. simpl.
     destruct (fetched_string k =? u); [|apply IH].
     destruct c; try apply Q_nil.
     - apply Q_cons; [not_fetch|apply Q_nil].
-    - apply sem_kids_Q. exact IH.
+    - apply sem_kids_Q. intros v. apply IH.
   Qed.
 
   Lemma sem_draw_req_Q q : Q (sem_draw_req W fails q).
   Proof.
-    destruct q as [[[k id] a] al]. destruct a as [a|]; simpl; [|apply Q_nil].
+    destruct q as [[[[k id] a] al] o]. destruct a as [a|]; simpl; [|apply Q_nil].
     destruct (img_ok W fails (fetched_string a)); [apply sem_draw_Q|apply Q_nil].
   Qed.
 
@@ -206,7 +207,7 @@ Section Logged.
     apply Q_app; apply attach_items_Q.
   Qed.
 
-  (* through the cache filter: the logs of the semantics stay, an image fetch brings its own *)
+  (* through the cache filter: the logs of the semantics stay, a cached fetch brings its own *)
   Lemma cfilter_keeps_logs l : forall seen lv u,
     In (Log lv u) l -> In (Log lv u) (cachefilter W fails seen l).
   Proof.
@@ -214,33 +215,34 @@ Section Logged.
     destruct H as [H|H].
     - subst e. left. reflexivity.
     - destruct e as [ch v|v|lv' v|x]; simpl; try (right; apply IH; exact H).
-      destruct (existsb (String.eqb v) seen); [apply IH; exact H|].
+      destruct (existsb (rkey_eqb v) seen); [apply IH; exact H|].
       right. apply in_or_app. right. apply IH. exact H.
   Qed.
 
   Lemma cfilter_fetch_origin l : forall seen ch u,
     In (Fetch ch u) (cachefilter W fails seen l) ->
     In (Fetch ch u) l \/
-    (ch = ChImage /\ (img_ok W fails u = false -> In (Log LError u) (cachefilter W fails seen l))).
+    (exists k, ch = key_ch k /\ u = key_url k /\
+               (key_ok W fails k = false -> In (Log LError u) (cachefilter W fails seen l))).
   Proof.
     induction l as [|e l IH]; intros seen ch u H; [destruct H|].
     destruct e as [ch' v|v|lv' v|x]; simpl in H.
     - destruct H as [H|H]; [left; left; exact H|].
-      destruct (IH _ _ _ H) as [H'|[E H']]; [left; right; exact H'|right; split; [exact E|]].
+      destruct (IH _ _ _ H) as [H'|[k [E1 [E2 H']]]]; [left; right; exact H'|right; exists k; repeat split; auto].
       intros Hi. right. apply H'. exact Hi.
-    - simpl. destruct (existsb (String.eqb v) seen).
+    - simpl. destruct (existsb (rkey_eqb v) seen).
       + destruct (IH _ _ _ H) as [H'|H']; [left; right; exact H'|right; exact H'].
       + destruct H as [H|H].
-        * inversion H; subst. right. split; [reflexivity|]. intros Hi. rewrite Hi. right. left. reflexivity.
+        * inversion H; subst. right. exists v. repeat split. intros Hi. rewrite Hi. right. left. reflexivity.
         * apply in_app_or in H as [H|H].
-          -- destruct (img_ok W fails v); [destruct H|]. destruct H as [H|[]]. discriminate.
-          -- destruct (IH _ _ _ H) as [H'|[E H']]; [left; right; exact H'|right; split; [exact E|]].
+          -- destruct (key_ok W fails v); [destruct H|]. destruct H as [H|[]]. discriminate.
+          -- destruct (IH _ _ _ H) as [H'|[k [E1 [E2 H']]]]; [left; right; exact H'|right; exists k; repeat split; auto].
              intros Hi. right. apply in_or_app. right. apply H'. exact Hi.
     - destruct H as [H|H]; [discriminate|].
-      destruct (IH _ _ _ H) as [H'|[E H']]; [left; right; exact H'|right; split; [exact E|]].
+      destruct (IH _ _ _ H) as [H'|[k [E1 [E2 H']]]]; [left; right; exact H'|right; exists k; repeat split; auto].
       intros Hi. right. apply H'. exact Hi.
     - destruct H as [H|H]; [discriminate|].
-      destruct (IH _ _ _ H) as [H'|[E H']]; [left; right; exact H'|right; split; [exact E|]].
+      destruct (IH _ _ _ H) as [H'|[k [E1 [E2 H']]]]; [left; right; exact H'|right; exists k; repeat split; auto].
       intros Hi. right. apply H'. exact Hi.
   Qed.
 
@@ -248,9 +250,10 @@ Section Logged.
   Proof.
     intros Hc. destruct (machine_is_filtered_semantics W fails c0 d Hc) as [E _]. rewrite E.
     intros ch u Hin Hd.
-    destruct (cfilter_fetch_origin _ _ _ _ Hin) as [H|[Ech H]].
+    destruct (cfilter_fetch_origin _ _ _ _ Hin) as [H|[k [Ech [Eu H]]]].
     - destruct (sem_doc_Q d _ _ H Hd) as [lv Hl]. exists lv. apply cfilter_keeps_logs. exact Hl.
-    - subst ch. exists LError. apply H. unfold detect in Hd. unfold img_ok.
-      destruct (fails u); [reflexivity|contradiction].
+    - subst ch u. exists LError. apply H. unfold detect in Hd.
+      destruct k; simpl in *; unfold img_ok, use_ok;
+        (destruct (fails u); [reflexivity|contradiction]).
   Qed.
 End Logged.
